@@ -251,15 +251,16 @@ impl FileUploadSession {
         let data_agg = take(&mut *self.current_session_data.lock().await);
         self.process_aggregated_data_as_xorb(data_agg).await?;
 
-        // Now, make sure all the remaining xorbs are uploaded.
-        let mut metrics = take(&mut *self.deduplication_metrics.lock().await);
-
         // Finalize the xorb uploads.
         let mut upload_tasks = take(&mut *self.xorb_upload_tasks.lock().await);
 
         while let Some(result) = upload_tasks.join_next().await {
             result??;
         }
+
+        // Only now take the metrics: the upload tasks joined above add the bytes they
+        // transmitted to the session metrics when they complete.
+        let mut metrics = take(&mut *self.deduplication_metrics.lock().await);
 
         // Now that all the tasks there are completed, there shouldn't be any other references to this session
         // hanging around; i.e. the self in this shession should be used as if it's consuming the class, as it
